@@ -500,6 +500,20 @@ def evaluate(case):
         flags['wide'] |= info['wide']
         flags['cells'] += info['cells']
         flags['texts'] += 1
+    # (3) the frame array is the caller's: after being written with one reduction it is written with 'first' as a fresh copy is
+    if method != 'first' and any(len(spec[1]) > 1 or spec[1][0] > 1 for spec in case['chs']) and t1 is not None:
+        texts = []
+        for obj in (fa, build_frame_array(case)[0]):
+            out = io.StringIO()
+            try:
+                WriteLAS.write_curve_and_array_section_to_las(obj, frames, 'first', Slice.Slice(), set(requested), fw, fmt, out)
+                texts.append(out.getvalue())
+            except Exception as err:  # noqa
+                texts.append('%s: %s' % (type(err).__name__, err))
+        if texts[0] != texts[1]:
+            bad.append(({'kind': 'frame_array_changed_by_writing', 'method': method},
+                        "after a write with reduction %r the same frame array written with 'first' differs from a fresh copy written with 'first':\n%s\n-- fresh:\n%s"
+                        % (method, texts[0][-400:], texts[1][-400:])))
     outcome = h64((t1, t2 if t2 != t1 else None, [s['kind'] for s, _ in bad]))
     return bad, outcome, flags
 
@@ -556,6 +570,13 @@ def cases_of(shard, tier):
             yield _mk(0, [('f8', (1,), 'idx'), ('f4', (1,), 3)], n, 'first', [], 16, '.3f')
             if n % 5 == 0 or not quick:
                 yield _mk(0, [('i4', (1,), 'idx'), ('f8', (3,), 1), ('u1', (1,), 2)], n, 'mean', ['GR'], 8, '.0f')
+        # many channels (the list of all channel names the writer puts in a comment grows with them), all of them and subsets
+        for nch in (8, 18, 19, 20, 26, 40) + (() if quick else (64, 100)):
+            names = ['DEPT'] + ['C%03d' % i for i in range(1, nch)]
+            for sub in ([], [names[1]], [names[-1], names[nch // 2]], [UNKNOWN]):
+                yield {'names': names, 'units': ['m'] + ['u%d' % (i % 7) for i in range(1, nch)], 'longs': ['Depth'] + ['curve %d' % i for i in range(1, nch)],
+                       'chs': [['f8', [1], 'idx']] + [['f4', [1], i % 5] for i in range(1, nch)],
+                       'frames': 3, 'method': 'first', 'subset': sub, 'fw': 12, 'fmt': '.3f'}
         return
     dt = DTYPES[shard['dt']]
     dims = DIMS[shard['dims']]
